@@ -587,6 +587,16 @@ def run_batches(ctx, batches):
                 ctx.disagree(name, line[:400], model[:400], real[:400])
 
 
+def written_path(cache, rw, crc):
+    """where the real insert put the file for `crc` (the documented name; else whatever insert recorded last)"""
+    p = '%s/%08X.json' % (rw, crc)
+    if os.path.isfile(p):
+        return p
+    if cache is not None and cache._cache_files and os.path.isfile(cache._cache_files[-1]):
+        return cache._cache_files[-1]
+    return None
+
+
 def stored_name(crc):
     return '%08X.json' % crc
 
@@ -714,10 +724,13 @@ def real_loads(data):
             direct = 'ok ' + canon(v)
         except Exception:
             direct = 'exc'
-        viafetch = c.fetch(0)
+        try:
+            viafetch = canon(c.fetch(0))
+        except Exception as e:
+            viafetch = 'fetch-raised ' + type(e).__name__
         want = None if direct == 'exc' else v
-        if canon(viafetch) != canon(want):
-            direct = 'fetch-differs ' + canon(viafetch)
+        if viafetch != canon(want):
+            direct = 'fetch-differs ' + viafetch
         return direct
     finally:
         shutil.rmtree(d, ignore_errors=True)
@@ -890,14 +903,17 @@ def correspond(ctx):
             toc = gen_toc(rng, types, max_groups=8 if big else 3, max_names=8 if big else 3)
             crc = rng.choice([0, 1, 0xBEEF, 0xFFFFFFFF, rng.randrange(2 ** 32), rng.randrange(2 ** 32)])
             sess.insert(crc, toc, key=('insert', toc_spec(toc)))
-            data = open(rw + '/' + stored_name(crc), 'rb').read()
+            path = written_path(sess.cache, rw, crc)
+            if path is None:
+                ctx.disagree('insert wrote no file', 'insert %d' % crc, 'file ' + stored_name(crc), 'none')
+                continue
+            data = open(path, 'rb').read()
             sess.emit('print ' + toc_spec(toc), 'ok ' + hexb(data), {'op': 'print', 'bytes': len(data)}, ('print', data))
             sess.fetch(crc, key=('fetch-after-insert', data))
             ctx.count('table:class-key' if has_class_key(toc) else 'table:plain')
             ctx.count('table:empty' if not toc else 'table:nonempty')
             # every truncation offset of the written file, through the real fetch
             good = []
-            path = rw + '/' + stored_name(crc)
             for k in range(len(data) + 1):
                 sess.put(path, data[:k])
                 r = sess.cache.fetch(crc)
@@ -992,7 +1008,7 @@ def scenario(ctx, sess, rng, types, sc):
         if op == 'fetch':
             sess.fetch(crc, key=('sc-fetch', sc, step, mode))
         elif op == 'fetch-other':
-            sess.fetch(rng.choice([crc ^ 1, crc + 2 ** 32, (crc * 16) % 2 ** 32, 0xABCD + 0x10000]), key=('sc-fetch-other', sc, step))
+            sess.fetch(rng.choice([crc ^ 1, crc + 2 ** 32, (crc * 16) % 2 ** 32, 0xABCD + 0x10000, crc & 0xFFFFFF, crc & 0xFFFF, crc & 0xF, 0]), key=('sc-fetch-other', sc, step))
         elif op == 'insert':
             t = table()
             sess.insert(crc, t, key=('sc-insert', sc, step, mode))
@@ -1053,7 +1069,7 @@ def fetcher_scenario(ctx, sess, rng, sc):
     sess.new(None, rw)
     # first connection: nothing cached -> download -> insert
     toc1, nreq1, done1 = run_fetcher(sess, cls, version, crc, elems, {'op': 'fetcher', 'kind': kind, 'n': n, 'v': version}, ('fetcher', kind, cls, version, n, sc))
-    path = rw + '/' + stored_name(crc)
+    path = written_path(sess.cache, rw, crc) or rw + '/' + stored_name(crc)
     if kind == 'truncated' and os.path.exists(path):
         data = open(path, 'rb').read()
         sess.put(path, data[:rng.randrange(len(data))])
@@ -1126,7 +1142,11 @@ def search(ctx):
                 ctx.witness('insert-raised', 'insert raised ' + type(e).__name__, {'crc': crc, 'toc': toc_spec(toc)})
                 continue
             stored[crc] = toc
-            path = '%s/%08X.json' % (rw, crc)
+            path = written_path(cache, rw, crc)
+            if path is None:
+                if rw:
+                    ctx.witness('insert-wrote-nothing', 'insert into a writable rw directory left no file', {'crc': crc})
+                continue
             data = open(path, 'rb').read()
             # (a) load = store, entry for entry; through this instance and through a new one (new process)
             for c2, who in ((cache, 'same-instance'), (tc.TocCache(ro_cache=ro, rw_cache=rw), 'new-instance')):
@@ -1162,7 +1182,8 @@ def search(ctx):
                 with open(path, 'wb') as f:
                     f.write(data)
             # (c) only the announced checksum finds it
-            for other in (crc ^ 1, crc ^ 0x80000000, (crc + 1) % 2 ** 32, (crc * 16) % 2 ** 32, crc >> 4):
+            for other in (crc ^ 1, crc ^ 0x80000000, (crc + 1) % 2 ** 32, (crc * 16) % 2 ** 32, crc >> 4,
+                          crc & 0x00FFFFFF, crc & 0xFFFF, crc & 0xFF, crc & 0xF, 0, crc | 0xF0000000):
                 if other in stored or other in shipped or other == crc:
                     continue
                 try:
@@ -1205,6 +1226,27 @@ def search(ctx):
             if got is not None:
                 ctx.witness('unparsable-file-used', 'an unparsable cache file is not treated as a miss', {'data': data.hex()}, got=repr(got)[:200])
             ctx.count('search:unparsable-is-miss')
+        # (e2) well-formed JSON whose entries cannot be decoded (older format without 'extended', missing member, unknown or
+        #      non-string class tag, wrong container types): a miss as well, and the fetcher downloads
+        elem = '"ident": 0, "group": "g", "name": "n", "ctype": "uint8_t", "pytype": "<B", "access": 0'
+        undecodable = ['{"g": {"n": {"__class__": "ParamTocElement", %s}}}' % elem,
+                       '{"g": {"n": {"__class__": "ParamTocElement", %s, "extended": true}}}' % elem.replace('"pytype": "<B", ', ''),
+                       '{"g": {"n": {"__class__": "LogTocElement", %s}}}' % elem.replace('"ident": 0, ', ''),
+                       '{"g": {"n": {"__class__": "FooTocElement", %s}}}' % elem,
+                       '{"g": {"n": {"__class__": 5, %s}}}' % elem,
+                       '{"g": {"n": {"__class__": null, %s}}}' % elem,
+                       '{"g": {"__class__": {"__class__": "LogTocElement", %s}}}' % elem]
+        for text in undecodable:
+            with open('%s/%08X.json' % (rw, 0x0BADF00D), 'w') as f:
+                f.write(text)
+            c2 = tc.TocCache(ro_cache=ro, rw_cache=rw)
+            try:
+                got = c2.fetch(0x0BADF00D)
+            except Exception as e:
+                got = e
+            if got is not None:
+                ctx.witness('undecodable-file-used', 'a cache file whose entries cannot be decoded is not treated as a miss', {'text': text}, got=repr(got)[:200])
+            ctx.count('search:undecodable-is-miss')
         os.remove('%s/%08X.json' % (rw, 0x0BADF00D))
         # (f) the read-only directory is untouched
         ro_after = {n: (open(ro + '/' + n, 'rb').read(), os.stat(ro + '/' + n).st_mtime_ns) for n in os.listdir(ro)}
@@ -1218,7 +1260,6 @@ def search(ctx):
             elems = device_table(rng, cls, n)
             crc = 0x70000000 + i
             ecls = L if cls == 'L' else P
-            path = '%s/%08X.json' % (rw, crc)
 
             def connect():
                 c = tc.TocCache(ro_cache=ro, rw_cache=rw)
@@ -1237,6 +1278,7 @@ def search(ctx):
                 e = ecls(idx, bytes([t]) + g.encode('latin-1') + b'\0' + nm.encode('latin-1') + b'\0')
                 want.setdefault(g, {})[nm] = elem_fields(e)
             for phase in ('cold', 'warm', 'cut', 'garbage', 'warm-again'):
+                path = written_path(None, rw, crc) or sorted((p for p in (os.path.join(rw, n) for n in os.listdir(rw))), key=os.path.getmtime)[-1]
                 if phase == 'cut':
                     data = open(path, 'rb').read()
                     with open(path, 'wb') as f:
@@ -1261,10 +1303,7 @@ def search(ctx):
         # (h) colliding checksums: the log and the parameter table of one firmware announce the same CRC
         crc = 0x5EEDC0DE
         log_elems, par_elems = device_table(rng, 'L', 3), device_table(rng, 'P', 3)
-        for first, second in (('L', 'P'), ('P', 'L')):
-            path = '%s/%08X.json' % (rw, crc)
-            if os.path.exists(path):
-                os.remove(path)
+        for crc, (first, second) in ((0x5EEDC0DE, ('L', 'P')), (0x5EEDC0DF, ('P', 'L'))):
             for cls in (first, second):
                 elems = log_elems if cls == 'L' else par_elems
                 ecls = L if cls == 'L' else P
